@@ -15,6 +15,11 @@ def output_filter(prog, rep):
     fi = prog.func("flood")
     rets = [n for n in fi.node.body if isinstance(n, ast.Return)]
     loops = [n for n in fi.node.body if isinstance(n, ast.For)]
+    # any other way out must hand back nothing at all (an empty list literal): everything else bypasses the filter
+    early = [n for n in walk_own(fi.node) if isinstance(n, ast.Return) and n not in rets]
+    for r in early:
+        empty = isinstance(r.value, ast.List) and not r.value.elts
+        rep.check(empty, "POSITIVE", fi.short, f"early return {norm(r)[:50]}", "returns the empty list", f"`{norm(r)}` leaves flood before the sweep and the positive-duration filter: zero-length events in the input are returned as they are", fi.loc(r))
     if len(rets) != 1 or len(loops) != 1:
         rep.undecided("POSITIVE", fi.short, "return", f"{len(rets)} returns / {len(loops)} loops", fi.loc())
         return
@@ -68,7 +73,7 @@ def sweep_rules(prog, rep):
 
     try:
         pre_stmts = [s for s in fi.node.body if s.lineno < lp.lineno]
-        sums, g = summarize(fi=None, body=lp.body, env=env, data_eq=data_eq, limit=4000, init_state=seed_state(pre_stmts, env))
+        sums, g = summarize(fi=None, body=lp.body, env=env, data_eq=data_eq, limit=4000, init_state=seed_state(pre_stmts, env), dnf=True)
     except Exception as ex:
         rep.undecided("FILL", fi.short, "paths", f"cannot enumerate loop-body paths: {ex}", fi.loc(lp))
         return
@@ -79,6 +84,7 @@ def sweep_rules(prog, rep):
     fields = (f"{e1}.timestamp", f"{e1}.duration", f"{e2}.timestamp", f"{e2}.duration")
     n_fill = 0
     seen = set()
+    n_skip = 0
     for s in sums:
         fw = {k: v for k, v in s.state.vals.items() if k in fields and v != Form.atom(k)}
         other_w = [k for k in s.state.vals if ("." in k or "[" in k) and k not in fields]
@@ -86,6 +92,16 @@ def sweep_rules(prog, rep):
             rep.violation("FILL", fi.short, f"write {other_w[0]}", "the sweep writes something other than timestamp/duration of the two neighbours", fi.loc(lp))
             continue
         if not fw:
+            # a pair that is left as it is: only when there is nothing to fill (gap <= 0) or the gap is longer than the pulsetime
+            from ..affine import infeasible, normalize_lits
+
+            hyp = set(s.lits) | {Lit(-G, "<"), Lit(G - P, "<=")}
+            if not infeasible(normalize_lits(hyp)):
+                k = (tuple(sorted(map(repr, s.lits))), tuple(sorted(s.opaque)))
+                if k not in seen:
+                    seen.add(k)
+                    conds = sorted(map(repr, s.lits)) + sorted(f"{'' if p_ else 'not '}{t}" for t, p_ in s.opaque)
+                    rep.violation("THRESHOLD", fi.short, f"pair skipped under {conds}"[:120], f"a pair whose gap is positive and within the pulsetime is left unfilled on the path with conditions {conds}: the property fills every such gap", fi.loc(lp), expected="every path that writes nothing implies gap <= 0 or gap > pulsetime", found=str(conds))
             continue
         upper = Lit(G - P, "<=")
         neg_gap = any(l.form == G and l.op == "<" for l in s.lits)  # gap < 0: overlapping input, outside the property's quantifier
@@ -183,6 +199,10 @@ VARIANTS = [
     ("B emptied neighbour left at its old start", F, "                    e1.duration = e2_end - e1.timestamp\n                    e2.timestamp = e2_end\n", "                    e1.duration = e2_end - e1.timestamp\n", "FILL-NEXT"),
     ("B falsy-zero pulsetime default", F, "    events = deepcopy(events)\n", "    pulsetime = pulsetime or 5\n    events = deepcopy(events)\n", "THRESHOLD"),
     ("B unsorted pairs", F, "    events = sorted(events, key=lambda e: e.timestamp)\n", "", "THRESHOLD"),
+    ("B early return for short lists skips the filter", F, "    events = deepcopy(events)\n    events = sorted(", "    events = deepcopy(events)\n    if len(events) < 2:\n        return events\n    events = sorted(", "POSITIVE"),
+    ("B pairs whose left event is empty are skipped", F, "        if not gap:\n            continue", "        if not gap or not e1.duration:\n            continue", "THRESHOLD"),
+    ("B gaps under a second left open", F, "        if not gap:\n            continue", "        if gap < timedelta(seconds=1):\n            continue", "THRESHOLD"),
+    ("OK empty input returns early", F, "    events = deepcopy(events)\n    events = sorted(", "    if not events:\n        return []\n    events = deepcopy(events)\n    events = sorted(", "ok"),
     ("OK comparison flipped", F, "if e1.duration >= e2.duration:", "if e2.duration <= e1.duration:", "ok"),
     ("OK temp inlined", F, "                    e2.duration = e2_end - e2.timestamp\n                    e1.duration = timedelta(0)", "                    e2.duration = e2_end - e1.timestamp\n                    e1.duration = timedelta(0)", "ok"),
     ("OK shorter-event priority (implementation choice)", F, "if e1.duration >= e2.duration:", "if e1.duration < e2.duration:", "ok"),
